@@ -222,10 +222,24 @@ impl Corpus {
     let names: Vec<ModName> = (0..n_modules)
       .map(|i| if rng.chance(1, 2) { vec![format!("M{i}")] } else { vec!["pkg".into(), format!("ModuleWithLongName{i}")] })
       .collect();
+    let shared_missing = rng.chance(2, 3);
     for (i, m) in names.iter().enumerate() {
       let mut t = String::new();
       let other = &names[(i + 1) % n_modules];
-      t.push_str(&format!("import {{ Exported{}, NotThere{i} }} from {};\n\n", (i + 1) % n_modules, other.join(".")));
+      t.push_str(&format!("import {{ Exported{}, NotThere{i} }} from {};\n", (i + 1) % n_modules, other.join(".")));
+      // several modules import from the same module that does not exist
+      if shared_missing && rng.chance(3, 4) {
+        t.push_str(&format!("import {{ Gone{i} }} from absent.SharedMissingModule;\n"));
+      }
+      if rng.chance(1, 3) {
+        t.push_str(&format!("import {{ AlsoGone }} from absent.AnotherMissingModuleWithLongName;\n"));
+      }
+      // the same class name brought in by two imports
+      if n_modules > 2 && rng.chance(1, 3) {
+        let third = &names[(i + 2) % n_modules];
+        t.push_str(&format!("import {{ Exported{} }} from {};\n", (i + 1) % n_modules, third.join(".")));
+      }
+      t.push('\n');
       let n_methods = rng.range(2, 5);
       let methods = pick_names(rng, n_methods, LONG, SHORT);
       t.push_str(&format!("interface Iface{i} {{\n"));
@@ -250,7 +264,19 @@ impl Corpus {
       if rng.chance(1, 2) {
         t.push_str(&format!("  method other(o: Exported{}): int = Unknown{i}.compute(o)\n", (i + 1) % n_modules));
       }
+      if rng.chance(1, 3) {
+        // the same member twice, and a call with the wrong arity
+        t.push_str("  method twice(): int = 1\n  method twice(): int = 2\n  method arity(): int = this.pick(1, 2)\n");
+      }
       t.push_str("}\n");
+      if rng.chance(1, 4) {
+        // the same class twice in one module
+        t.push_str(&format!("\nclass Enum{i} {{ function again(): int = 0 }}\n"));
+      }
+      if rng.chance(1, 3) {
+        // two interfaces with the same member, one class implementing both and neither
+        t.push_str(&format!("\ninterface Left{i} {{ method shared(): int }}\ninterface Right{i} {{ method shared(): Str }}\nclass Both{i} : Left{i}, Right{i} {{ }}\n"));
+      }
       sources.insert(m.clone(), t);
       overrides.insert(m.clone());
     }
@@ -383,6 +409,30 @@ impl Corpus {
       sources.get_mut(&m).unwrap().push_str(&t);
       loop_classes.push((mi, cn));
     }
+    // closure classes: lambdas that capture several variables of different types (closure context
+    // structs are synthesized per captured-type list; the capture set is a hash map)
+    let n_closures = rng.range(1, 5);
+    let mut closure_classes: Vec<(usize, String)> = Vec::new();
+    for c in 0..n_closures {
+      let mi = rng.below(n_modules);
+      let cn = format!("{}{c}", rng.pick(&["Closures", "Capturing", "AClassFullOfClosuresWithLongName"]));
+      let lit = rng.pick(&["shared literal", "label", "another shared string literal"]).to_string();
+      let k = rng.range(1, 9);
+      let t = format!(
+        "class {cn} {{\n  function make(count: int, label: Str, flag: bool): (int) -> Str =\n    (x) -> if flag {{ label :: Str.fromInt(count + x) }} else {{ Str.fromInt(x - count) :: label }}\n\n  function other(label: Str, count: int): () -> Str = () -> Str.fromInt(count * {k}) :: \"{lit}\" :: label\n\n  function third(a: int, b: Str, c: int, d: Str): (Str) -> Str = (s) -> s :: b :: Str.fromInt(a + c) :: d\n\n  function run(seed: int): unit = {{\n    Process.println({cn}.make(seed, \"{lit}\", seed < {k})(seed + {k}));\n    Process.println({cn}.other(\"{lit}\", seed + 1)());\n    Process.println({cn}.third(seed, \"x\", {k}, \"{lit}\")(\"<\"));\n  }}\n}}\n\n"
+      );
+      let m = mod_names[mi].clone();
+      sources.get_mut(&m).unwrap().push_str(&t);
+      closure_classes.push((mi, cn));
+    }
+    // the same private class name and the same enum shape in every module; a generic enum used at
+    // two types in each module
+    for (mi, m) in mod_names.iter().enumerate() {
+      let t = format!(
+        "private class LocalUtil {{\n  function twice(x: int): int = x * 2 + {mi}\n}}\n\nclass Maybe{mi}<T>(Nothing, Just(T)) {{\n  method <R> fold(d: R, f: (T) -> R): R = match this {{ Nothing -> d, Just(v) -> f(v) }}\n}}\n\nclass SameShape{mi}(First(int), Second(Str), Third) {{\n  method show(): Str = match this {{ First(i) -> Str.fromInt(LocalUtil.twice(i)), Second(s) -> s, Third -> \"third\" }}\n\n  function run(): unit = {{\n    Process.println(SameShape{mi}.First({mi}).show() :: SameShape{mi}.Second(\"shared literal\").show() :: SameShape{mi}.Third().show());\n    Process.println(Str.fromInt(Maybe{mi}.Just({mi} + 5).fold(0, (v) -> v + 1)) :: Maybe{mi}.Just(\"shared literal\").fold(\"\", (v) -> v) :: Maybe{mi}.Nothing<int>().fold(\"none\", (v) -> Str.fromInt(v)));\n  }}\n}}\n\n"
+      );
+      sources.get_mut(m).unwrap().push_str(&t);
+    }
     // main: call every function from here with literals; different literals for the same function
     let main: ModName = vec!["app".into(), "Main".into()];
     let mut t = String::new();
@@ -398,9 +448,21 @@ impl Corpus {
     for (cm, cn) in &loop_classes {
       t.push_str(&format!("import {{ {cn} }} from {};\n", mod_names[*cm].join(".")));
     }
+    for (cm, cn) in &closure_classes {
+      t.push_str(&format!("import {{ {cn} }} from {};\n", mod_names[*cm].join(".")));
+    }
+    for (mi, m) in mod_names.iter().enumerate() {
+      t.push_str(&format!("import {{ SameShape{mi} }} from {};\n", m.join(".")));
+    }
     t.push_str("import { Box, Shape } from shared.Containers;\n\nclass Main {\n  function main(): unit = {\n");
     for (li, (_, cn)) in loop_classes.iter().enumerate() {
       t.push_str(&format!("    {cn}.run({});\n", li % 2));
+    }
+    for (ci, (_, cn)) in closure_classes.iter().enumerate() {
+      t.push_str(&format!("    {cn}.run({});\n", ci + 1));
+    }
+    for mi in 0..n_modules {
+      t.push_str(&format!("    SameShape{mi}.run();\n"));
     }
     for (i, f) in fns.iter().enumerate() {
       for _ in 0..rng.range(1, 2) {
